@@ -389,7 +389,11 @@ class Emit:
             return f'(if {self.e(x[1])} then {blk(x[2])} else {blk(x[3])})'
         raise PE(f'expression {k}')
     def type_of(self, x):
+        if x[0] == 'num': return 'int'
+        if x[0] == 'var' and x[1] in self.consts: return 'int'
         if x[0] == 'var': return self.types.get(x[1], 'unknown')
+        if x[0] in ('cast', 'as'): return 'int'
+        if x[0] == 'field' and self.type_of(x[1]) == 'version' and x[2] in ('parent_version_id', 'version_id'): return 'id'
         if x[0] == 'field':
             t = self.type_of(x[1])
             if t == 'client' and x[2] == 'snapshot': return 'opt-snapshot'
@@ -534,7 +538,7 @@ class Emit:
             elif s[0] == 'loop': self.assigned(s[1], acc)
         return acc
     def loop(self, body, rest, after):
-        mut = sorted(self.assigned(body, set()))
+        mut = sorted(self.assigned(body, set()), key=lambda v: (0 if self.lean_type(v) == 'Int' else 1, v))
         if not mut: raise PE('loop without assigned variables')
         name = f'{self.fname}Loop'
         # free variables of the loop function: all parameters of the enclosing function + let-bound names seen so far
